@@ -10,6 +10,7 @@ import Dlismodel.Model.ParseEflr
 import Dlismodel.Model.Iflr
 import Dlismodel.Model.Api
 import Dlismodel.Model.Checks
+import Dlismodel.Model.Cast
 import Dlismodel.Model.Output
 import Dlismodel.Model.Index
 import Dlismodel.Model.FrameIdx
@@ -553,6 +554,13 @@ def handle (ws : List String) : String :=
   | ["hcstr", s] => match parseCps s with
     | some s => if hcString s then "1" else "0" | none => "bad"
   | "chk" :: rest => handleChk rest
+  | ["cast", nb, sg, vs] =>
+    match nb.toNat?, (vs.splitOn ",").mapM String.toInt? with
+    | some nb, some vs =>
+      let t : IntTy := { bytes := nb, signed := sg == "1" }
+      "ok " ++ ",".intercalate (vs.map fun v => toString (castInt t v)) ++ " " ++
+        String.join (vs.map fun v => match encInt t (castInt t v) with | .ok b => hexOfBytes b | .error _ => "!")
+    | _, _ => "bad"
   | "hist" :: n :: ops =>
     match n.toNat?, ops.mapM parseOp with
     | some n, some ops => "ok " ++ showWorld (run (World.init n) ops)
